@@ -6,6 +6,7 @@
 // (assumed; the page layer underneath is proved by Kani unit U14.1).
 use vstd::prelude::*;
 use std::marker::PhantomData;
+use core::ops::RangeInclusive;
 verus! {
 //@prelude std_combinators
 
@@ -15,6 +16,15 @@ pub assume_specification<T>[core::mem::replace::<T>](dest: &mut T, src: T) -> (r
 
 #[verifier::external_body]
 pub struct BitSet { _p: u8 }
+
+// stands for `impl DoubleEndedIterator<Item = u32>` (return-position impl Trait in a trait is outside Verus' subset)
+#[verifier::external_body]
+pub struct ValIter { _p: u8 }
+impl ValIter { pub uninterp spec fn yields(&self, x: u32) -> bool; }
+pub assume_specification<Idx>[ RangeInclusive::<Idx>::start ](r: &RangeInclusive<Idx>) -> (s: &Idx)
+    ensures *s == r@.start;
+pub assume_specification<Idx>[ RangeInclusive::<Idx>::end ](r: &RangeInclusive<Idx>) -> (s: &Idx)
+    ensures *s == r@.end;
 
 impl BitSet {
     pub uninterp spec fn view(&self) -> Set<u32>;
@@ -56,6 +66,24 @@ impl BitSet {
         ensures final(self)@ == other@.difference(old(self)@)
     { unimplemented!() }
     #[verifier::external_body]
+    pub fn insert_range(&mut self, range: RangeInclusive<u32>)
+        ensures forall|x: u32| #![trigger final(self)@.contains(x)] final(self)@.contains(x) == (old(self)@.contains(x) || (range@.start <= x <= range@.end))
+    { unimplemented!() }
+    #[verifier::external_body]
+    pub fn remove_range(&mut self, range: RangeInclusive<u32>)
+        ensures forall|x: u32| #![trigger final(self)@.contains(x)] final(self)@.contains(x) == (old(self)@.contains(x) && !(range@.start <= x <= range@.end))
+    { unimplemented!() }
+    // extend / remove_all are generic over IntoIterator<Item = u32> in the real code; here they are instantiated at the
+    // abstract iterator type the Domain stub returns (the values it yields are a ghost predicate)
+    #[verifier::external_body]
+    pub fn extend(&mut self, iter: ValIter)
+        ensures forall|x: u32| #![trigger final(self)@.contains(x)] final(self)@.contains(x) == (old(self)@.contains(x) || iter.yields(x))
+    { unimplemented!() }
+    #[verifier::external_body]
+    pub fn remove_all(&mut self, iter: ValIter)
+        ensures forall|x: u32| #![trigger final(self)@.contains(x)] final(self)@.contains(x) == (old(self)@.contains(x) && !iter.yields(x))
+    { unimplemented!() }
+    #[verifier::external_body]
     pub const fn empty() -> (r: BitSet)
         ensures r@ == Set::<u32>::empty()
     { unimplemented!() }
@@ -66,6 +94,8 @@ impl BitSet {
 //@require source=intset seq="pub trait Domain: Sized"
 //@require source=intset seq="fn to_u32(&self) -> u32;"
 //@require source=intset seq="fn count() -> u64;"
+//@require source=intset seq="fn is_continuous() -> bool;"
+//@require source=intset seq="fn ordered_values_range(range: RangeInclusive<Self>) -> impl DoubleEndedIterator<Item = u32>;"
 pub trait Domain: Sized {
     spec fn to_u32_spec(&self) -> u32;
     spec fn dom(value: u32) -> bool;
@@ -75,6 +105,12 @@ pub trait Domain: Sized {
         ensures r == self.to_u32_spec(), Self::dom(r);
     fn count() -> (r: u64)
         ensures r == Self::count_spec();
+    // "true if all u32 values between the mapped u32 min and mapped u32 max value of this domain are used"
+    fn is_continuous() -> (r: bool)
+        ensures r ==> forall|a: u32, b: u32, x: u32| #![trigger Self::dom(a), Self::dom(b), Self::dom(x)] Self::dom(a) && Self::dom(b) && a <= x <= b ==> Self::dom(x);
+    // "iterator which generates all values in the given range of this domain [in order] from minimum to maximum"
+    fn ordered_values_range(range: RangeInclusive<Self>) -> (r: ValIter)
+        ensures forall|x: u32| r.yields(x) == (Self::dom(x) && range@.start.to_u32_spec() <= x <= range@.end.to_u32_spec());
     proof fn dom_finite()
         ensures ISet::<u32>::new(|x: u32| Self::dom(x)).finite(),
                 ISet::<u32>::new(|x: u32| Self::dom(x)).len() == Self::count_spec();
@@ -170,6 +206,22 @@ impl<T: Domain> IntSet<T> {
         ensures final(self).wf(),
             forall|x: u32| final(self).mem(x) == (old(self).mem(x) && x != val.to_u32_spec()),
             r == old(self).mem(val.to_u32_spec()),
+//@end
+
+//@extract source=intset container="impl<T: Domain> IntSet<T>" fn=insert_range
+//@spec
+        requires old(self).wf()
+        ensures final(self).wf(),
+            forall|x: u32| final(self).mem(x) == (old(self).mem(x) || (T::dom(x) && range@.start.to_u32_spec() <= x <= range@.end.to_u32_spec())),
+            final(self).0 is Inclusive == old(self).0 is Inclusive,
+//@end
+
+//@extract source=intset container="impl<T: Domain> IntSet<T>" fn=remove_range
+//@spec
+        requires old(self).wf()
+        ensures final(self).wf(),
+            forall|x: u32| final(self).mem(x) == (old(self).mem(x) && !(range@.start.to_u32_spec() <= x <= range@.end.to_u32_spec())),
+            final(self).0 is Inclusive == old(self).0 is Inclusive,
 //@end
 
 //@extract source=intset container="impl<T: Domain> IntSet<T>" fn=contains ret=r
